@@ -53,8 +53,8 @@ def subtraces(recs):
     out = []
     for r in recs:
         ev = r.ev
-        if not ev:
-            continue
+        if not ev or getattr(r, "truncated", False):
+            continue          # (a history cut at the monitor's event limit carries no verdict)
         final = None
         for e in reversed(ev):
             if e["k"] == "b":
